@@ -19,7 +19,8 @@ def prop_modules():
   from . import props  # pylint: disable=import-outside-toplevel
   out = {}
   for m in pkgutil.iter_modules(props.__path__):
-    if m.name.startswith('c') and m.name[1:].isdigit():
+    # cNN = listed properties; gNN = spec-growth checks beyond the list (runnable, never in MANIFEST.json)
+    if m.name[0] in 'cg' and m.name[1:].isdigit():
       out[m.name.upper()] = f'pgverif.props.{m.name}'
   return dict(sorted(out.items()))
 
@@ -40,7 +41,7 @@ def build_manifest() -> dict:
   ready_file = VERIF / 'claimed.txt'      # maintained by hand: ids whose checks are finished
   ready = set(ready_file.read_text().split()) if ready_file.exists() else set()
   for pid, name in mods.items():
-    if pid not in ready:
+    if pid not in ready or not pid.startswith('C'):
       continue
     mod = importlib.import_module(name)
     meta = getattr(mod, 'META', None)
